@@ -37,6 +37,12 @@ type C12Rule struct {
 	W, H   int    `json:"-"`
 	Size   [2]int `json:"size,omitempty"` // 0,0 = not declared
 	Margin int    `json:"margin"`         // -1 = not declared
+	// a second selector of the rule ("name:pseudo, name2:pseudo2"), when Two is set
+	Two     bool   `json:"two,omitempty"`
+	Name2   string `json:"name2,omitempty"`
+	Pseudo2 string `json:"pseudo2,omitempty"`
+	// the rule also holds a margin at-rule with declarations of its own (a margin among them)
+	MarginBox bool `json:"margin_box,omitempty"`
 }
 
 type C12Case struct {
@@ -66,6 +72,15 @@ func c12Gen(t *rapid.T, tier Tier) interface{} {
 		if r.Size == [2]int{} || rapid.Bool().Draw(t, "rmargin") {
 			r.Margin = rapid.SampledFrom([]int{0, 8, 15}).Draw(t, "rm")
 		}
+		if rapid.IntRange(0, 2).Draw(t, "rtwo") == 0 {
+			r.Two = true
+			r.Name2 = rapid.SampledFrom([]string{"", "a", "b"}).Draw(t, "rname2")
+			r.Pseudo2 = rapid.SampledFrom([]string{"", "first", "left", "right", "blank"}).Draw(t, "rpseudo2")
+			if r.Name2 == "" && r.Pseudo2 == "" {
+				r.Pseudo2 = "left"
+			}
+		}
+		r.MarginBox = rapid.IntRange(0, 2).Draw(t, "rmbox") == 0
 		c.Rules = append(c.Rules, r)
 	}
 	if c.Rules[0].Size[1] >= 65 && rapid.IntRange(0, 3).Draw(t, "pagedeco") == 0 {
@@ -117,12 +132,25 @@ func c12HTML(c *C12Case) string {
 		if r.Pseudo != "" {
 			sel += ":" + r.Pseudo
 		}
+		if r.Two {
+			sel += ", "
+			if r.Name2 != "" {
+				sel += r.Name2
+			}
+			if r.Pseudo2 != "" {
+				sel += ":" + r.Pseudo2
+			}
+		}
 		b.WriteString(sel + "{")
 		if r.Size != [2]int{} {
 			fmt.Fprintf(&b, "size:%dpx %dpx;", r.Size[0], r.Size[1])
 		}
 		if r.Margin >= 0 {
 			fmt.Fprintf(&b, "margin:%dpx;", r.Margin)
+		}
+		if r.MarginBox {
+			// declarations of a margin box: they style that box, not the page
+			b.WriteString(`@top-left{content:"";margin:3px;width:7px}`)
 		}
 		b.WriteString("}")
 	}
@@ -260,35 +288,46 @@ func c12Geometry(c *C12Case, pg c12Page) (w, h, m int) {
 		r    C12Rule
 	}
 	var cs []cand
-	for i, r := range c.Rules {
-		if r.Name != "" && r.Name != pg.name {
-			continue
+	match := func(name, pseudo string) (bool, [3]int) {
+		if name != "" && name != pg.name {
+			return false, [3]int{}
 		}
-		switch r.Pseudo {
+		switch pseudo {
 		case "first":
 			if !pg.first {
-				continue
+				return false, [3]int{}
 			}
 		case "blank":
 			if !pg.blank {
-				continue
+				return false, [3]int{}
 			}
 		case "left", "right":
-			if pg.side != r.Pseudo {
-				continue
+			if pg.side != pseudo {
+				return false, [3]int{}
 			}
 		}
 		sp := [3]int{}
-		if r.Name != "" {
+		if name != "" {
 			sp[0] = 1
 		}
-		if r.Pseudo == "first" || r.Pseudo == "blank" {
+		if pseudo == "first" || pseudo == "blank" {
 			sp[1] = 1
 		}
-		if r.Pseudo == "left" || r.Pseudo == "right" {
+		if pseudo == "left" || pseudo == "right" {
 			sp[2] = 1
 		}
-		cs = append(cs, cand{sp, i, r})
+		return true, sp
+	}
+	for i, r := range c.Rules {
+		// each selector of a list stands for a rule of its own with the same declarations
+		if ok, sp := match(r.Name, r.Pseudo); ok {
+			cs = append(cs, cand{sp, i, r})
+		}
+		if r.Two {
+			if ok, sp := match(r.Name2, r.Pseudo2); ok {
+				cs = append(cs, cand{sp, i, r})
+			}
+		}
 	}
 	sort.SliceStable(cs, func(i, j int) bool {
 		if cs[i].spec != cs[j].spec {
